@@ -347,8 +347,8 @@ def _map_gradient_coordinates(
             paint,
             c0=affine.map_point(paint.c0),
             c1=affine.map_point(paint.c1),
-            r0=affine.map_vector((paint.r0, 0)).x,
-            r1=affine.map_vector((paint.r1, 0)).x,
+            r0=abs(affine.map_vector((paint.r0, 0)).x),
+            r1=abs(affine.map_vector((paint.r1, 0)).x),
         )
     raise TypeError(type(paint))
 
